@@ -456,6 +456,32 @@ def _sig_match(pattern, sig):
     return True
 
 
+def library_crash(text):
+    """a Go process that died with a panic / fatal error whose innermost non-runtime frame is library code (not the
+    harness): returns a one-line description, else None. The library crashing the process it runs in is a verdict
+    ("does not panic" is part of every listed property's meaning of a call returning what the spec allows); a crash
+    inside the harness is machinery trouble."""
+    m = re.search(r"^(panic: .*|fatal error: .*)$", text, re.M)
+    if not m:
+        return None
+    rest = text[m.end():]
+    g = re.search(r"^goroutine \d+ .*\[running.*?\]:\n(.*?)(?:\n\n|\Z)", rest, re.M | re.S)
+    if not g:
+        return None
+    lines = g.group(1).split("\n")
+    frames = []
+    for a, b in zip(lines, lines[1:]):
+        if a and not a.startswith("\t") and b.startswith("\t"):
+            frames.append((a[:a.rfind("(")] if "(" in a else a, b.strip().split(":")[0]))
+    for fn, path in frames:
+        if path.startswith("/opt/") or "/src/runtime/" in path or "/src/sync/" in path or "/src/internal/" in path or fn.startswith(("runtime.", "sync.", "panic", "internal/")):
+            continue
+        if "github.com/bradenaw/juniper/" in fn and "/verifsched" not in fn:
+            return "%s in %s" % (m.group(1)[:200], fn)
+        return None
+    return None
+
+
 def main(argv):
     import importlib.util
     if len(argv) < 2:
@@ -487,6 +513,10 @@ def main(argv):
         mod.run(ctx)
         return ctx.finish()
     except Trouble as e:
+        crash = library_crash(str(e))
+        if crash:
+            ctx.violation("the library crashed the process it was running in: " + crash, {"kind": "library-crash", "where": crash.split(" in ")[-1]}, None)
+            return ctx.finish()
         print("TROUBLE (exit 2, not a verdict): %s" % e, flush=True)
         ctx.cleanup()
         return 2
